@@ -1,7 +1,8 @@
 (* C07 — cached answers go only to the same question and client group, unchanged.
    Only statements; proofs live in Cache/CacheKeyProofs.v, Cache/NetlistProofs.v, Cache/CacheMemProofs.v. *)
 From Mos Require Import Base.Prelude Codec.Name Codec.Msg Codec.NameProofs Codec.WfProofs
-  Cache.CacheKey Cache.CacheKeyProofs Cache.Netlist Cache.NetlistProofs Cache.CacheMem Cache.CacheMemProofs.
+  Cache.CacheKey Cache.CacheKeyProofs Cache.Netlist Cache.NetlistProofs Cache.CacheMem Cache.CacheMemProofs
+  Cache.CacheBuf Cache.CacheBufProofs.
 
 (* ------------------------------------------------------------------ the key ------------------------------ *)
 (* The key the router builds (ToLowerName, then cacheKey = name ‖ 0 ‖ class ‖ type ‖ group label_cm) determines
@@ -145,6 +146,47 @@ Theorem C07_big_refines_small : forall os s s', big_run os s = Some s' -> exists
 Proof. exact big_refines_small. Qed.
 Print Assumptions C07_big_refines_small.
 
+(* ------------------------------------------------------------------ the value buffers (round 2) ---------- *)
+(* Cache/CacheBuf.v: the layer UNDER the values of the system above.  A value is a slice (array, length) of a pooled
+   byte array; arrays keep their old octets when the pool hands them out again; GetBuf returns ANY free array; Store
+   fills its copy and Get copies ONE OCTET PER STEP; newCacheEntry and backend.Get return ARBITRARY entries;
+   releaseEntry and the caller's release of a result buffer happen at arbitrary points; any number of goroutines.
+   [cb_run false] is the code as it is: the copy is made under the entry's read lock.
+   In EVERY interleaving every hit returns, octet for octet, a value that some Store call supplied for the looked-up
+   key: never another key's value, never a torn mixture. *)
+Theorem C07_buffers_hit_unchanged : forall ls s, cb_run false ls cb_init = Some s ->
+  forall l1 k v l2, cb_trace s = l1 ++ CbHit k v :: l2 -> In (CbStore k v) l2.
+Proof. exact cb_hit_unchanged. Qed.
+Print Assumptions C07_buffers_hit_unchanged.
+
+(* while a goroutine copies, the array it reads from belongs to the entry whose read lock it holds (it is not in the free
+   list and in nobody else's hands), the entry still carries the looked-up key and that very slice, and nobody holds
+   the write lock; the destination array is the goroutine's own *)
+Theorem C07_copy_source_owned : forall ls s, cb_run false ls cb_init = Some s ->
+  forall t k e b n d i, cb_thr s t = CbGCopy k e b n d i ->
+    In t (cb_r (cb_ents s e)) /\ cb_w (cb_ents s e) = None /\ cb_k (cb_ents s e) = k /\
+    cb_v (cb_ents s e) = Some (b, n) /\ cb_own s b = CbEnt e /\ cb_own s d = CbThr t.
+Proof. exact cb_copy_source_owned. Qed.
+Print Assumptions C07_copy_source_owned.
+
+(* The variant that drops the read lock BEFORE the copy ("only grab the fields under the lock", [cb_run true]) is REFUTED:
+   after Store([1], [10;11]) two concrete schedules make Get([1]) return [20;21] - the value of key [2] - and [20;11] - a
+   torn mixture -; the same label lists are not schedules of the code as it is (releaseEntry's Lock waits for the
+   reader). *)
+Theorem C07_early_unlock_refuted :
+  cb_trace_of true cb_early_witness =
+    Some [CbHit [1] [20; 21]; CbStore [2] [20; 21]; CbStore [1] [10; 11]]%N /\
+  cb_trace_of true cb_early_witness_torn =
+    Some [CbHit [1] [20; 11]; CbStore [2] [20; 21]; CbStore [1] [10; 11]]%N /\
+  cb_trace_of false cb_early_witness = None /\ cb_trace_of false cb_early_witness_torn = None.
+Proof. exact cb_early_unlock_refuted. Qed.
+Print Assumptions C07_early_unlock_refuted.
+
+Theorem C07_early_unlock_breaks_property :
+  exists ls tr, cb_trace_of true ls = Some tr /\ ~ cb_hits_ok tr.
+Proof. exact cb_early_unlock_breaks_property. Qed.
+Print Assumptions C07_early_unlock_breaks_property.
+
 (* ------------------------------------------------------------------ repeat => hit ------------------------ *)
 (* FULL statement (not proved in this generality): in a cm_run without eviction of k and with ample capacity, after
    Store(k, v) with lifetime L at time t0, ANY Get(k) issued while more than 1 s of the lifetime remains returns
@@ -223,3 +265,18 @@ Example C07_example_repeat :
   | None => False
   end.
 Proof. vm_compute. split; reflexivity. Qed.
+
+(* buffer level, the code as it is: Store([1],[10;11]) in array 0 / entry 0; a reader copies under the lock while a second
+   Store([2],[20;21]) takes a fresh array 2 and recycles ENTRY 0 (its Lock waits for the reader); the reader gets [10;11];
+   a later Get([1]) on entry 0 misses (key re-check), Get([2]) returns [20;21] *)
+Example C07_example_buffers :
+  cb_trace_of false
+    [ CbLStore [1] [10; 11] 0; CbLStep 0 0; CbLStep 0 0; CbLStep 0 0; CbLStep 0 0; CbLStep 0 0;
+      CbLGet [1] 0; CbLStep 1 0; CbLStep 1 0; CbLStep 1 1; CbLStep 1 0;
+      CbLStore [2] [20; 21] 2; CbLStep 2 0; CbLStep 2 0; CbLStep 2 0;
+      CbLStep 1 0; CbLStep 1 0;
+      CbLStep 2 0; CbLStep 2 0;
+      CbLGet [1] 0; CbLStep 3 0; CbLStep 3 0;
+      CbLGet [2] 0; CbLStep 4 0; CbLStep 4 0; CbLStep 4 3; CbLStep 4 0; CbLStep 4 0; CbLStep 4 0 ]%N =
+  Some [CbHit [2] [20; 21]; CbMiss [1]; CbHit [1] [10; 11]; CbStore [2] [20; 21]; CbStore [1] [10; 11]]%N.
+Proof. vm_compute. reflexivity. Qed.
